@@ -30,21 +30,24 @@ impl<'a, E: Elem> GIter2<'a, E> {
         ledger::with(|s| s.clones.clear());
         let r = with_it!(&io.it; it, N => { let _ = N::USIZE; lib(|| It::from(it.clone())) });
         let clones = ledger::with(|s| s.clones.clone());
-        let srcs: Vec<u32> = infra(|| clones.iter().map(|c| c.0).collect());
-        let news: Vec<u32> = infra(|| clones.iter().map(|c| c.1).collect());
         let want: Vec<u32> = infra(|| io.model.iter().copied().collect());
         match r {
             Ok(it2) => {
+                // what the clone yields must be clones of the original's remaining elements, in queue
+                // order. (In which order, and how often, T::clone was invoked to get there is not
+                // pinned down by the statement and is not asserted.)
+                let got = with_it!(&it2; it, N => { let _ = N::USIZE; ids_of(it.as_slice(), 949) });
                 if cx.checks.c06 {
-                    if E::HAS_ID && srcs != want {
-                        fail("C06-clone", format!("clone of an iterator with remaining {want:?} cloned {srcs:?}"));
-                    }
-                    if !E::HAS_ID && ledger::seam_count(Seam::Clone) as usize != want.len() {
-                        fail("C06-clone", format!("clone of an iterator with {} remaining made {} clones", want.len(), ledger::seam_count(Seam::Clone)));
+                    if E::HAS_ID {
+                        let origin: Vec<u32> = infra(|| got.iter().map(|g| clones.iter().rev().find(|c| c.1 == *g).map(|c| c.0).unwrap_or(0)).collect());
+                        if origin != want {
+                            fail("C06-clone", format!("clone of an iterator with remaining {want:?} yields clones of {origin:?}"));
+                        }
+                    } else if got.len() != want.len() {
+                        fail("C06-clone", format!("clone of an iterator with {} remaining yields {} elements", want.len(), got.len()));
                     }
                 }
-                let model: VecDeque<u32> = infra(|| if E::HAS_ID { news.into_iter().collect() } else { want.iter().map(|_| 0).collect() });
-                // the clone's own remaining elements are compared with this model by the walk
+                let model: VecDeque<u32> = infra(|| got.into_iter().collect());
                 self.put_it(cx, ItObj { it: it2, model, front: 0 });
             }
             Err(p) => on_panic(cx, "iterator clone", p),
@@ -232,18 +235,25 @@ impl<'a, E: Elem> GIter2<'a, E> {
             }
         };
         let clones = ledger::with(|s| s.clones.clone());
-        let news: Vec<u32> = infra(|| clones.iter().map(|c| c.1).collect());
         let want: Vec<u32> = infra(|| src.model.iter().copied().collect());
         match r {
             Ok(()) => {
-                // the destination now yields clones of the source's remaining elements
+                // the destination now yields clones of the source's remaining elements, in queue order
+                let got = with_it!(&dst.it; it, N => { let _ = N::USIZE; ids_of(it.as_slice(), 949) });
+                if cx.checks.c06 {
+                    if E::HAS_ID {
+                        let origin: Vec<u32> = infra(|| got.iter().map(|g| clones.iter().rev().find(|c| c.1 == *g).map(|c| c.0).unwrap_or(0)).collect());
+                        if origin != want {
+                            fail("C06-clone", format!("clone_from a source with remaining {want:?} left the destination with clones of {origin:?}"));
+                        }
+                    } else if got.len() != want.len() {
+                        fail("C06-clone", format!("clone_from a source with {} remaining left the destination with {} elements", want.len(), got.len()));
+                    }
+                }
                 infra(|| {
-                    dst.model = if E::HAS_ID { news.iter().copied().collect() } else { want.iter().map(|_| 0).collect() };
+                    dst.model = got.into_iter().collect();
                     dst.front = 0;
                 });
-                if cx.checks.c06 && E::HAS_ID && news.len() != want.len() {
-                    fail("C06-clone", format!("clone_from a source with remaining {want:?} made {} clones", news.len()));
-                }
                 self.put_it(cx, dst);
             }
             Err(p) => {
